@@ -106,6 +106,45 @@ fn erase_slot_relative(o: &Outcome) -> Outcome {
     out
 }
 
+/// A diagnostic raised inside a slot reads `L:C: l:c: message`: the slot's first character and the
+/// offender's position relative to it.  After layout was inserted inside the slot (at byte `at`,
+/// `added` bytes) the pair must still add up to where the offending token now is.
+fn slot_positions_moved(base_src: &str, var_src: &str, edit: Option<(usize, usize, usize)>, b: &Outcome, v: &Outcome) -> Option<String> {
+    let (at, _, added) = edit?;
+    if b.class != Class::Err || v.class != Class::Err {
+        return None;
+    }
+    let two = |msg: &str| -> Option<((u32, u32), (u32, u32))> {
+        let first = msg.lines().next()?;
+        let (outer, rest) = parse_pos(first)?;
+        let (inner, _) = parse_pos(rest)?;
+        Some((outer, inner))
+    };
+    let (bo, bi) = two(&b.msg)?;
+    let (vo, vi) = two(&v.msg)?;
+    let slot_start = pos_to_off(base_src, bo)?;
+    if at < slot_start {
+        return None;
+    }
+    let inner_off = pos_to_off(&base_src[slot_start..], bi)?;
+    let abs = slot_start + inner_off;
+    // only when the edit lies in the slot that holds the offender
+    let slot_end = base_src[slot_start..].find('}').map(|i| slot_start + i)?;
+    if at > slot_end {
+        return None;
+    }
+    let abs2 = if at <= abs { abs + added } else { abs };
+    let want_outer = off_to_pos(var_src, slot_start);
+    let want_inner = off_to_pos(&var_src[slot_start..], abs2 - slot_start);
+    if vo != want_outer || vi != want_inner {
+        return Some(format!(
+            "the offender inside the slot moved with the inserted layout: expected `{}:{}: {}:{}:`, got `{}:{}: {}:{}:` (original `{}:{}: {}:{}:`)",
+            want_outer.0, want_outer.1, want_inner.0, want_inner.1, vo.0, vo.1, vi.0, vi.1, bo.0, bo.1, bi.0, bi.1
+        ));
+    }
+    None
+}
+
 fn strip_positions(msg: &str) -> (Vec<(u32, u32)>, String) {
     // every `<L>:<C>:` group at the start of a line / after `sd:`
     let mut poss = vec![];
@@ -489,9 +528,10 @@ impl Check for C09 {
                 let mut c = Case::new(src.clone(), T_SLOT, format!("{} (original)", name));
                 c.no_ref = true;
                 cases.push(c);
-                for (text, desc) in eds {
+                for (text, desc, at, added) in eds {
                     let mut c = Case::new(text, T_SLOT, format!("{}: {}", name, desc));
                     c.no_ref = true;
+                    c.companion_edit = Some((at, 0, added));
                     pairs.push((bi, cases.len(), name.clone(), desc));
                     cases.push(c);
                 }
@@ -505,6 +545,12 @@ impl Check for C09 {
                     (Some(b), Some(v)) => (*b, *v),
                     _ => continue, // not judged (the run was cut short after repeated hangs)
                 };
+                if let Some(detail) = slot_positions_moved(&b.case.src, &v.case.src, v.case.companion_edit, &b.o, &v.o) {
+                    let mut c = v.case.clone();
+                    c.companion = Some(b.case.src.clone());
+                    ctx.report(&c, None, &v.o, "moved-position", format!("{} [{}]: {}", name, desc, detail));
+                    continue;
+                }
                 if let Some((clause, detail)) = compare_pair(&b.case.src, &v.case.src, None, &[], &erase_slot_relative(&b.o), &[], &erase_slot_relative(&v.o), "the original") {
                     let mut c = v.case.clone();
                     c.companion = Some(b.case.src.clone());
@@ -533,6 +579,9 @@ impl Check for C09 {
             let o = pool.run(&reqs)?;
             println!("companion: {:?} -> {:?} {:?} {:?}", base, o[0].class, o[0].out_str(), o[0].msg);
             println!("variant:   {:?} -> {:?} {:?} {:?}", c.src, o[1].class, o[1].out_str(), o[1].msg);
+            if let Some(d) = slot_positions_moved(&base, &c.src, c.companion_edit, &o[0], &o[1]) {
+                return Ok(Some(viol("moved-position", d)));
+            }
             return Ok(Some(match compare_pair(&base, &c.src, None, &[], &erase_slot_relative(&o[0]), &[], &erase_slot_relative(&o[1]), "the companion program") {
                 Some((clause, detail)) => viol(clause, detail),
                 None => Verdict::Pass,
